@@ -151,6 +151,10 @@ def run_harness(ssa_path, fname, params=None, fixlen=None, unwind=10, unwind_by_
     ctx.hooks['fixlen'] = fixlen or {}
     if hooks:
         ctx.hooks.update(hooks)
+    if 'len_bounds' in ctx.hooks and isinstance(ctx.hooks['len_bounds'], str):
+        import importlib
+        m, f = ctx.hooks['len_bounds'].rsplit('.', 1)
+        ctx.hooks['len_bounds'] = getattr(importlib.import_module(m), f)
     ex = Exec(ctx)
     res = Result(harness=fname, params=params or {}, fixlen=fixlen or {}, obligations=[], status='ok')
     try:
@@ -177,43 +181,94 @@ def run_harness(ssa_path, fname, params=None, fixlen=None, unwind=10, unwind_by_
     solver_s = 0.0
     nq = 0
     only = hooks.get('only_obligations') if hooks else None
+    if only:
+        obls = [ob for ob in obls if not (ob.kind in ('assert', 'panic') and not only(ob))]
+
+    def record(ob, result, dt, **kw):
+        e = {'kind': ob.kind, 'name': ob.name, 'pos': ob.pos, 'result': result, 'solver_s': round(dt, 3)}
+        e.update(kw)
+        res['obligations'].append(e)
+
+    # 1. reachability witnesses, one query each (must be sat)
     for ob in obls:
-        entry = {'kind': ob.kind, 'name': ob.name, 'pos': ob.pos}
-        if only and ob.kind in ('assert', 'panic') and not only(ob):
-            continue
-        if ob.kind == 'reach':
-            if not want_reach:
-                continue
+        if ob.kind == 'reach' and want_reach:
             r, s, dt = solve(ctx, ob.cond, timeout_ms)
-            entry['result'] = str(r)   # sat expected
-        else:
-            sigs = exclude(ctx, ob) if (exclude and ob.kind in ('panic', 'assert')) else {}
-            sigs = {k: v for k, v in sigs.items() if v is not False}
-            r, s, dt = solve(ctx, ob.cond, timeout_ms, [z3.Not(v) for v in sigs.values()])
-            entry['result'] = str(r)
-            if r == z3.sat:
-                vals, obs = model_values(ctx, s.model())
-                entry['model'] = vals
-                entry['observed'] = obs
-            elif r == z3.unsat and sigs:
-                # nothing outside the known classes; look for a witness inside each known class
-                entry['known'] = []
-                for kid, sig in sigs.items():
-                    r2, s2, dt2 = solve(ctx, ob.cond, timeout_ms, [sig])
-                    dt += dt2
+            solver_s += dt
+            nq += 1
+            record(ob, str(r), dt)
+    # 2. everything else in batches: one query for the disjunction, models split it up
+    def batch(group, sigs):
+        nonlocal solver_s, nq
+        pending = list(group)
+        blocked = []
+        rounds = 0
+        while pending:
+            disj = b_or(*[ob.cond for ob in pending])
+            r, s, dt = solve(ctx, disj, timeout_ms, [z3.Not(v) for v in sigs.values()] + blocked)
+            solver_s += dt
+            nq += 1
+            if r == z3.unsat:
+                for ob in pending:
+                    record(ob, 'unsat', dt / len(pending), batch=len(pending))
+                break
+            if r == z3.unknown:
+                # fall back to individual queries
+                for ob in pending:
+                    r1, s1, dt1 = solve(ctx, ob.cond, timeout_ms, [z3.Not(v) for v in sigs.values()] + blocked)
+                    solver_s += dt1
                     nq += 1
-                    if r2 == z3.sat:
-                        vals, obs = model_values(ctx, s2.model())
-                        entry['known'].append({'id': kid, 'model': vals, 'observed': obs})
-                    elif r2 == z3.unknown:
-                        entry['known'].append({'id': kid, 'unknown': True})
-            if dump_smt and nq < 3:
-                with open('%s.%d.smt2' % (dump_smt, nq), 'w') as f:
-                    f.write(s.to_smt2())
-        entry['solver_s'] = round(dt, 3)
-        solver_s += dt
-        nq += 1
-        res['obligations'].append(entry)
+                    if r1 == z3.sat:
+                        vals, obs = model_values(ctx, s1.model())
+                        record(ob, 'sat', dt1, model=vals, observed=obs)
+                    else:
+                        record(ob, str(r1), dt1)
+                break
+            m = s.model()
+            truth = z3.evaluate([bl(ob.cond) if isinstance(ob.cond, bool) else ob.cond for ob in pending], m.env)
+            vals, obs = model_values(ctx, m)
+            hit = [ob for ob, t in zip(pending, truth) if t]
+            if not hit:
+                raise RuntimeError('batch model satisfies no member of the disjunction')
+            for ob in hit:
+                record(ob, 'sat', dt / len(hit), model=vals, observed=obs)
+                blocked.append(z3.Not(bl(ob.cond)) if not isinstance(ob.cond, bool) else (not ob.cond))
+            pending = [ob for ob in pending if ob not in hit]
+            rounds += 1
+            if rounds >= 6:
+                for ob in pending:
+                    record(ob, 'unknown', 0.0, note='batch splitting stopped after 6 models')
+                break
+        # witnesses inside each known-finding class
+        if sigs:
+            for kid, sig in sigs.items():
+                disj = b_or(*[ob.cond for ob in group])
+                r2, s2, dt2 = solve(ctx, disj, timeout_ms, [sig])
+                solver_s += dt2
+                nq += 1
+                if r2 == z3.sat:
+                    m = s2.model()
+                    truth = z3.evaluate([ob.cond for ob in group if not isinstance(ob.cond, bool)], m.env)
+                    vals, obs = model_values(ctx, m)
+                    hitobs = [ob for ob, t in zip([o for o in group if not isinstance(o.cond, bool)], truth) if t]
+                    ob = hitobs[0] if hitobs else group[0]
+                    for e in res['obligations']:
+                        if e['name'] == ob.name and e['pos'] == ob.pos and e['kind'] == ob.kind:
+                            e.setdefault('known', []).append({'id': kid, 'model': vals, 'observed': obs})
+                            break
+                elif r2 == z3.unknown:
+                    res['obligations'].append({'kind': 'assert', 'name': 'known-class %s' % kid, 'pos': None, 'result': 'unknown', 'solver_s': round(dt2, 3)})
+
+    soft = [ob for ob in obls if ob.kind in ('unwind', 'unsupported')]
+    if soft:
+        batch(soft, {})
+    hard = [ob for ob in obls if ob.kind in ('panic', 'assert')]
+    groups = {}
+    for ob in hard:
+        sg = exclude(ctx, ob) if exclude else {}
+        sg = {k: v for k, v in sg.items() if v is not False}
+        groups.setdefault(tuple(sorted(sg)), ([], sg))[0].append(ob)
+    for key, (grp, sg) in groups.items():
+        batch(grp, sg)
     res['queries'] = nq
     res['solver_s'] = round(solver_s, 3)
     res['wall_s'] = round(time.time() - t0, 3)
